@@ -2,6 +2,7 @@ package main
 
 import (
 	"fmt"
+	"os"
 	"go/types"
 	"sort"
 	"strings"
@@ -136,7 +137,7 @@ func genVC(P *Program, C *Contracts, S *Sorts, key string, pure map[*ssa.Functio
 	if ct.Panics != nil && len(ct.Panics.Tags) > 0 {
 		ptags = ct.Panics.Tags
 	}
-	f.onPanic = func(cond, kind, anchor string) {
+	f.onPanic = func(cond, kind, anchor string, _ *State) {
 		if ct.MayPanic {
 			return
 		}
@@ -214,6 +215,12 @@ func genVC(P *Program, C *Contracts, S *Sorts, key string, pure map[*ssa.Functio
 				tags = ct.Tags
 			}
 			f.oblige("ensures", e.Label, implies(retPC, substSX(e.Term, env)), tags, e.Src)
+			if os.Getenv("GOVC_SPLIT") != "" {
+				// debugging aid: the same clause per return site
+				for ri, r := range f.rets {
+					f.oblige("ensures", fmt.Sprintf("%s.ret%d", e.Label, ri), implies(and(retPC, r.pc), substSX(e.Term, env)), tags, e.Src)
+				}
+			}
 		}
 		for _, fr := range ct.Fresh {
 			t, ok := bind[fr.Name]
